@@ -2122,6 +2122,11 @@ package mcp
 //@ func mcpHandler.handlePing
 //@   ensures[C15,C13,C20 every-ping-gets-a-result-of-its-own] ret1 == nil && istype(ret0, map[string]interface{}) && isfresh(ret0.(map[string]interface{}))
 //@
+// C02 — resources/read on the client: once the envelope of the answer has decoded, the call returns the items (no item
+// makes the decoder refuse the whole answer)
+//@ func parseReadResourceResultFromJSON
+//@   before call return#2 assert[C02 an-answer-whose-envelope-decodes-is-returned-whatever-its-items] isnil(ret1) && ret0 == result && result != nil
+//@
 // C09 — the stdio client's frames go out through its encoder only (one Encode per message)
 //@ sweepscope[C09] kinds=framedoutput files=transport_stdio.go,stdio_client.go
 //@
